@@ -36,7 +36,7 @@ func c14ValidShard(u *ufsFields) bool {
 	return uint64(len(u.Data)) <= f/8
 }
 
-const c14Rule = "case = node in {raw bytes, non-dag-pb map/list/string/int, dag-pb with Data absent / garbage / valid UnixFS of each type 0..5 / unknown type 6, 99, 2^31} with 0..8 links (children stored so that preload can succeed), shard parameters valid and invalid (fanout not a power of two / < 8 / > 1024 / missing, wrong or missing hash type, oversized bitfield) x {Reify, registered 'unixfs', registered 'unixfs-preload'}; " +
+const c14Rule = "case = node in {raw bytes, non-dag-pb map/list/string/int, dag-pb with Data absent / garbage / valid UnixFS of each type 0..5 / unknown type 6, 99, 2^31} with 0..8 (sometimes 40..90) links (children stored so that preload can succeed), shard parameters valid and invalid (fanout not a power of two / < 8 / > 1024 / missing, wrong or missing hash type, oversized bitfield) x {Reify, registered 'unixfs', registered 'unixfs-preload'}; " +
 	"oracle = the statement's table (same node back / link map with LookupByString(linkname) / bytes-kind LargeBytesNode / map-kind directory / error, never a panic) and Substrate() is the original dag-pb node whose re-encoding equals the original block; " +
 	"non-trivial = dag-pb with decodable Data and >= 1 link; distinct by (input class, type, link count, reifier, validity)"
 
@@ -160,6 +160,8 @@ func c14OneNode(t *rapid.T, st *Store, ls *ipld.LinkSystem, ev *Evid) *c14Kept {
 	nl := rapid.IntRange(0, 8).Draw(t, "nlinks")
 	if rapid.IntRange(0, 2).Draw(t, "linkless") == 0 {
 		nl = 0
+	} else if rapid.IntRange(0, 7).Draw(t, "manyLinks") == 0 {
+		nl = rapid.IntRange(40, 90).Draw(t, "nlinksMany")
 	}
 	typ := uint64(99)
 	valid := true
